@@ -571,7 +571,7 @@ def run_check(check: Check, tier: str = "quick", seed: int = 0) -> int:
     canary_report = []
     for ci, c in enumerate(canaries):
         sts = [st for (cj, _k), st in states.items() if cj == ci]
-        if not sts or all(st.skipped for st in sts):
+        if (sts and all(st.skipped for st in sts)) or (not sts and apply_canary(repo_root, c) is None):
             canary_report.append(dict(name=c.name, status="skipped (anchor not found in current source)"))
             continue
         errs = [e for st in sts for e in st.errors]
